@@ -75,8 +75,7 @@ func RunPlan(p *plan.Plan, keepLog bool) *plan.Result {
 	default:
 		panic("unknown workload " + p.Workload)
 	}
-	if unwound {
-		unwound = false
+	if takeUnwound() {
 		res.Stats["process_unwound"] = 1
 	}
 	for k, v := range res.Stats {
